@@ -443,6 +443,87 @@ def dims_functions(repo, outdir):
     write(os.path.join(outdir, "DimsGen.lean"), "\n".join(out))
     return len(jobs)
 
+# ---------------------------------------------------------------------------------------------
+# area.rs, contains/{line,rect}.rs, intersects/triangle.rs
+
+AREA = "geo/src/algorithm/area.rs"
+NUM_PATHS = {"T::zero": "0", "T::one": "1"}
+# `Line::map_coords(f)` = `Line::new(f(start), f(end))` (geo/src/algorithm/map_coords.rs), a Line being the pair of its end points
+LINE_MAP = "({1} {0}.1, {1} {0}.2)"
+
+def misc_jobs(repo):
+    import rsexpr
+    tri = strip_comments(open(os.path.join(repo, "geo-types/src/geometry/triangle.rs")).read())
+    to_lines = rsexpr.array_literal(tri, r"pub fn to_lines\(&self\) -> \[Line<T>; 3\] \{", {}, {"Line::new": "Prod.mk"})
+    area_hdr = lambda ty, fn: r"impl<T> Area<T> for %s<T>\s+where\s+T: \w+,\s*\{.*?fn %s\(&self\) -> T \{" % (ty, fn)
+    R = {"ret_type": "Rat"}
+    B = {"ret_type": "Bool"}
+    fold = {".fold": "(List.foldl {2} {1} {0})"}
+    return [
+        # (file, header, Lean name, params, ret, paths, funcs, subst, resub, opts)
+        (AREA, r"pub\(crate\) fn twice_signed_ring_area<T>\(linestring: &LineString<T>\) -> T\s+where\s+T: CoordNum,\s*\{",
+         "twiceSignedRingArea", "(linestring : List Pt)", "Rat", NUM_PATHS, {".map_coords": LINE_MAP},
+         [("linestring.1", "linestring")], [],
+         dict(R, mut_types={"tmp": "Rat"},
+              accessors=dict(VEC_ACC, lines="(Geo.segs {})", determinant="(Gen.lineDeterminant {0}.1 {0}.2)"))),
+        (AREA, r"pub\(crate\) fn get_linestring_area<T>\(linestring: &LineString<T>\) -> T\s+where\s+T: CoordFloat,\s*\{",
+         "getLinestringArea", "(linestring : List Pt)", "Rat", NUM_PATHS, {"twice_signed_ring_area": "twiceSignedRingArea"}, [], [], R),
+        (AREA, area_hdr("Polygon", "signed_area"), "polygonSignedArea", "(poly : Poly)", "Rat", NUM_PATHS,
+         dict(fold, get_linestring_area="getLinestringArea"), [("self", "poly")], [],
+         # `abs` on numbers = `Geo.rabs`
+         dict(R, accessors={"exterior": "{}.ext", "interiors": "{}.ints", "iter": "{}", "abs": "(Geo.rabs {})"})),
+        (AREA, area_hdr("Polygon", "unsigned_area"), "polygonUnsignedArea", "(poly : Poly)", "Rat", NUM_PATHS, {}, [("self", "poly")], [],
+         dict(R, accessors={"signed_area": "(polygonSignedArea {})", "abs": "(Geo.rabs {})"})),
+        (AREA, area_hdr("MultiPolygon", "signed_area"), "multiPolygonSignedArea", "(ps : List Poly)", "Rat", NUM_PATHS, fold,
+         [("self.1", "ps")], [], dict(R, accessors={"iter": "{}", "signed_area": "(polygonSignedArea {})"})),
+        (AREA, area_hdr("MultiPolygon", "unsigned_area"), "multiPolygonUnsignedArea", "(ps : List Poly)", "Rat", NUM_PATHS, fold,
+         [("self.1", "ps")], [], dict(R, accessors={"iter": "{}", "signed_area": "(polygonSignedArea {})", "abs": "(Geo.rabs {})"})),
+        (AREA, area_hdr("Triangle", "signed_area"), "triangleSignedArea", "(a b c : Pt)", "Rat", NUM_PATHS, {},
+         [("self.1", "a"), ("self.2", "b"), ("self.3", "c")], [], R),
+        ("geo/src/algorithm/contains/line.rs", r"impl<T> Contains<Coord<T>> for Line<T>.*?fn contains\(&self, coord: &Coord<T>\) -> bool \{",
+         "lineContainsCoord", "(s e coord : Pt)", "Bool", {}, {".intersects": "Gen.lineCoord"},
+         [("self.start", "s"), ("self.end", "e"), ("self", "s e")], [], B),
+        ("geo/src/algorithm/contains/line.rs", r"impl<T> Contains<Line<T>> for Line<T>.*?fn contains\(&self, line: &Line<T>\) -> bool \{",
+         "lineContainsLine", "(s e ls le : Pt)", "Bool", {}, {".intersects": "Gen.lineCoord", ".contains": "lineContainsCoord"},
+         [("line.start", "ls"), ("line.end", "le"), ("self", "s e")], [], B),
+        ("geo/src/algorithm/contains/rect.rs", r"impl<T> Contains<Polygon<T>> for Rect<T>.*?fn contains\(&self, rhs: &Polygon<T>\) -> bool \{",
+         "rectContainsPolygon", "(mn mx : Pt) (rhs : Poly)", "Bool", {},
+         {".intersects": "Gen.rectCoord", ".contains": "Gen.rectContainsCoord"}, [("self", "mn mx")], [],
+         # `is_zero()` = comparison with 0; `exterior_coords_iter()` = the exterior coordinates in order
+         dict(B, mut_types={"points_inside": "Nat"},
+              accessors={"is_empty": "(polygonIsEmpty {})", "exterior_coords_iter": "{}.ext", "signed_area": "(polygonSignedArea {})",
+                         "is_zero": "({} == 0)"})),
+        ("geo/src/algorithm/intersects/triangle.rs", r"impl<T> Intersects<Coord<T>> for Triangle<T>.*?fn intersects\(&self, rhs: &Coord<T>\) -> bool \{",
+         "triangleCoord", "(a b c rhs : Pt)", "Bool", ORI_PATHS, {"T::Ker::orient2d": "Geo.orient"},
+         [("self.1", "a"), ("self.2", "b"), ("self.3", "c"), ("l.start", "l.1"), ("l.end", "l.2")], [],
+         # `[Orientation; 3]::sort()` by the derive(Ord) order = `Geo.sort3` (proved to sort in Props/C02)
+         dict(B, arrays={"self.to_lines": to_lines}, accessors={"to_lines": "{}.to_lines"}, array_sort={3: "Geo.sort3"})),
+    ]
+
+def misc_functions(repo, outdir):
+    """Gen/AreaGen.lean: area.rs, Line/Rect `contains` bodies, `Triangle: Intersects<Coord>`."""
+    import rsexpr
+    out = ["/- generated by translator/rs2lean.py (rsexpr, statement fragment); do not edit -/",
+           "import GeoModel.Area", "import GeoModel.Segment", "import GeoModel.TRANPrelude", "import GeoModel.Gen.Kernel", "import GeoModel.Gen.DimsGen", "",
+           "namespace Geo.Gen", "open Geo", "set_option linter.unusedVariables false", ""]
+    cache = {}
+    try:
+        jobs = misc_jobs(repo)
+    except rsexpr.TranslateError as e:
+        die("Triangle::to_lines: %s" % e)
+    for (rel, hdr, name, params, ret, paths, funcs, subst, resub, opts) in jobs:
+        if rel not in cache:
+            cache[rel] = strip_comments(open(os.path.join(repo, rel)).read())
+        try:
+            term = rsexpr.translate_fn(cache[rel], hdr, paths, funcs, subst, resub=resub, opts=opts)
+        except rsexpr.TranslateError as e:
+            die("%s (%s): %s" % (name, rel, e))
+        out.append("/-- `%s` — %s -/" % (name, rel))
+        out.append("def %s %s : %s :=\n%s\n" % (name, params, ret, term))
+    out += ["end Geo.Gen", ""]
+    write(os.path.join(outdir, "AreaGen.lean"), "\n".join(out))
+    return len(jobs)
+
 ENDPT = {"p.start": "p1", "p.end": "p2", "q.start": "q1", "q.end": "q2"}
 
 def collinear_table(repo, outdir):
@@ -546,7 +627,8 @@ def main():
     ni = interp_functions(repo, outdir)
     nc = coordpos_functions(repo, outdir)
     nd = dims_functions(repo, outdir)
-    print("rs2lean: wrote Masks.lean (%d predicates), Enums.lean (%d op rules), CollinearTable.lean (%d rows), Kernel.lean (%d functions), AffineGen.lean (%d functions), RectGen.lean (%d functions), InterpGen.lean (%d functions), CoordPosGen.lean (%d functions), DimsGen.lean (%d functions)" % (len(fns), len(pairs), rows, nk, na, nr, ni, nc, nd))
+    nm = misc_functions(repo, outdir)
+    print("rs2lean: wrote Masks.lean (%d predicates), Enums.lean (%d op rules), CollinearTable.lean (%d rows), Kernel.lean (%d functions), AffineGen.lean (%d functions), RectGen.lean (%d functions), InterpGen.lean (%d functions), CoordPosGen.lean (%d functions), DimsGen.lean (%d functions), AreaGen.lean (%d functions)" % (len(fns), len(pairs), rows, nk, na, nr, ni, nc, nd, nm))
 
 if __name__ == "__main__":
     main()
